@@ -35,7 +35,7 @@ void run_vi(const char *op)
         /* vi.dec kind octets offset : the octets are an exact-size heap block, buffer = use(all) */
         size_t n = aHlen(1);
         ByteBuffer b;
-        if (byte_buffer_set(&b, aH(1), n, n, (size_t)aN(2)) < 0) { out_s("skip"); return; }
+        if (byte_buffer_set(&b, aH(1), n, g_nargs > 3 ? (size_t)aN(3) : n, (size_t)aN(2)) < 0) { out_s("skip"); return; }
         uint32_t u32 = 0; int32_t s32 = 0; uint64_t u64 = 0; int64_t s64 = 0; int rc;
         switch (kind) {
         case 0: rc = varint_decode_u32(&b, &u32); break;
